@@ -57,6 +57,7 @@ type bpWorld struct {
 	faultFired bool
 
 	knownTie bool // the recorded tip tie-break finding was hit in this run
+	stop     bool // a recorded finding left the pool in a state not worth exploring further
 	// heapClean: no operation since the heap was last rebuilt (Init, or a reset
 	// whose fee move made reinit re-sort) can have left an account at a stale
 	// position on the unchanged tree. Those operations are: an insertion that keeps
@@ -211,7 +212,9 @@ func (w *bpWorld) openPool() {
 	w.pool = pool
 	w.poolHead = head
 	w.initStoreRecord()
-	w.heapClean = true
+	// Init builds the heap from scratch, but its capacity loop (drop) can leave a
+	// stale tip order behind: the caller says whether that loop can have run
+	w.heapClean = false
 }
 
 type bpInitError struct{ err error }
@@ -301,6 +304,7 @@ func runBP(t *testing.T, pl any) *simcore.Result {
 		}()
 		t0 := time.Now()
 		w.openPool()
+		w.heapClean = true // nothing on disk
 		w.timing("first-open", t0)
 		viol = w.run()
 	}()
@@ -541,6 +545,9 @@ func (w *bpWorld) run() *simcore.Violation {
 			}
 			w.logf("reboot after op %d pool={%s} limbo=%d", i, bpContent(R, w.chain.accts), len(R.limboIx))
 			o = R
+			if w.stop {
+				return nil
+			}
 		}
 	}
 	return w.verifyStores()
@@ -595,6 +602,7 @@ func (w *bpWorld) apply(op *BPOp, B *bpObs) *bpInfo {
 			}
 			w.pool = nil
 			w.openPool()
+			w.heapClean = B.snap.Stored <= uint64(w.p.Knobs.DatacapKB)*1024
 			w.res.Reboots++
 			w.res.Probe("clean-restart")
 			info.restarted = true
@@ -1445,35 +1453,7 @@ func (w *bpWorld) reboot(B, A *bpObs) (*bpObs, *simcore.Violation) {
 			imgLimboHashes[e.Hash] = true
 		}
 	}
-	// (D1) the reopened pool is consistent (limbo expectations are re-based first)
-	newLimbo := map[common.Hash]uint64{}
-	for h, blk := range w.limbo {
-		if _, ok := R.limboIx[h]; ok {
-			newLimbo[h] = blk
-			continue
-		}
-		_, inB := B.limboIx[h]
-		_, inA := A.limboIx[h]
-		if inB && inA && blk > R.final {
-			return R, simcore.Violf("limbo-lost", "limbo entry %x (block %d, not final) existed before and after the interrupted operation but is gone after the restart (in the image: %v)", h[:4], blk, imgLimboHashes[h])
-		}
-	}
-	w.limbo = newLimbo
-	if v := w.checkLive(R); v != nil {
-		return R, v
-	}
-	// (D2) nothing invented
-	for h := range R.index {
-		if !imgHashes[h] {
-			return R, simcore.Violf("recovery-invented", "reopened pool holds %x which is not in the on-disk image", h[:4])
-		}
-	}
-	for h := range R.limboIx {
-		if !imgLimboHashes[h] {
-			return R, simcore.Violf("recovery-invented", "reopened limbo holds %x which is not in the on-disk image", h[:4])
-		}
-	}
-	// (D3) the reopened contents are the documented clean-up of the image
+	// what the image holds per account (transactions only, not the cell payload)
 	model := R.head.model
 	per := map[common.Address][]rtx{}
 	seen := map[common.Hash]bool{}
@@ -1498,6 +1478,58 @@ func (w *bpWorld) reboot(B, A *bpObs) (*bpObs, *simcore.Violation) {
 		r := w.rtxOf(stx, e.Size)
 		per[r.from] = append(per[r.from], r)
 	}
+	// (D1) the reopened pool is consistent (limbo expectations are re-based first)
+	newLimbo := map[common.Hash]uint64{}
+	for h, blk := range w.limbo {
+		if _, ok := R.limboIx[h]; ok {
+			newLimbo[h] = blk
+			continue
+		}
+		_, inB := B.limboIx[h]
+		_, inA := A.limboIx[h]
+		if inB && inA && blk > R.final {
+			return R, simcore.Violf("limbo-lost", "limbo entry %x (block %d, not final) existed before and after the interrupted operation but is gone after the restart (in the image: %v)", h[:4], blk, imgLimboHashes[h])
+		}
+	}
+	w.limbo = newLimbo
+	if v := w.checkLive(R); v != nil {
+		if v.Oracle == "nonce-gap" {
+			// Recorded finding: recheck tests for a dangling first nonce BEFORE it
+			// removes the entries below the state nonce, so a stale entry (here:
+			// one billy resurrected) hides the gap behind it.
+			for _, a := range w.chain.accts {
+				ai := w.chain.byAddr[a.addr]
+				got := R.byAcct[a.addr]
+				if len(got) == 0 || got[0].Nonce <= model[ai].Nonce {
+					continue
+				}
+				for _, e := range per[a.addr] {
+					if e.nonce < model[ai].Nonce {
+						v.Key = "nonce-gap:stale-entry-hides-front-gap"
+						v.Msg += fmt.Sprintf(" [the image also holds nonce %d of that account, below the state nonce: recheck decides 'not dangling' on that entry, drops it, and never looks at the front again]", e.nonce)
+					}
+				}
+			}
+			if v.Key != "nonce-gap" && simcore.IsKnown(v.Key) {
+				w.res.KnownHit(v.Key)
+				w.stop = true // the pool now holds a dangling transaction: nothing more to learn from this run
+				return R, nil
+			}
+		}
+		return R, v
+	}
+	// (D2) nothing invented
+	for h := range R.index {
+		if !imgHashes[h] {
+			return R, simcore.Violf("recovery-invented", "reopened pool holds %x which is not in the on-disk image", h[:4])
+		}
+	}
+	for h := range R.limboIx {
+		if !imgLimboHashes[h] {
+			return R, simcore.Violf("recovery-invented", "reopened limbo holds %x which is not in the on-disk image", h[:4])
+		}
+	}
+	// (D3) the reopened contents are the documented clean-up of the image
 	expected := map[common.Address][]rtx{}
 	ambiguous := map[common.Address]bool{}
 	var expStored uint64
@@ -1526,6 +1558,8 @@ func (w *bpWorld) reboot(B, A *bpObs) (*bpObs, *simcore.Violation) {
 		}
 	}
 	datacap := uint64(w.p.Knobs.DatacapKB) * 1024
+	heapCleanAfter := exact && expStored <= datacap
+	defer func() { w.heapClean = heapCleanAfter }()
 	for _, a := range w.chain.accts {
 		if ambiguous[a.addr] {
 			continue
